@@ -51,6 +51,27 @@ pub fn acc(name: &str, buf: &[u8], pos: usize) -> Value {
     crate::alloc::set_case("acc", name, buf);
     let mut d = Decoder::new(buf);
     d.set_position(pos);
+    acc_on(&mut d, name, buf)
+}
+
+/// The same accessor through `Decoder::probe()`: its outcome, and where the probing decoder stands afterwards.
+pub fn probe(name: &str, buf: &[u8], pos: usize) -> Value {
+    crate::alloc::set_case("probe", name, buf);
+    let mut d = Decoder::new(buf);
+    d.set_position(pos);
+    let mut o = { let mut p = d.probe(); acc_on(&mut p, name, buf) };
+    o["opos"] = json!(d.position());
+    o
+}
+
+/// An element type that consumes one item of any kind and counts itself in the caller's context.
+pub struct Counting;
+impl<'b> minicbor::Decode<'b, u64> for Counting {
+    fn decode(d: &mut Decoder<'b>, n: &mut u64) -> Result<Self, Error> { d.skip()?; *n += 1; Ok(Counting) }
+}
+
+fn acc_on<'b>(d: &mut Decoder<'b>, name: &str, buf: &'b [u8]) -> Value {
+    let d = &mut *d;
     match name {
         "u8"  => { let r = d.u8();  res(r, &d, |v| vint(false, v as u64)) }
         "u16" => { let r = d.u16(); res(r, &d, |v| vint(false, v as u64)) }
@@ -90,12 +111,23 @@ pub fn acc(name: &str, buf: &[u8], pos: usize) -> Value {
             let r: Result<u64, Error> = (|| { let mut n = 0u64; for x in d.map_iter::<Skipped, Skipped>()? { x?; n += 1 } Ok(n) })();
             res(r, &d, |n| json!({"k":"count","n":n}))
         }
+        // (the context counts decoded elements, keys and values each; the iterator's own yields are counted next to it)
+        "array_iter_with" => {
+            let mut ctx = 0u64;
+            let r: Result<u64, Error> = (|| { let mut n = 0u64; for x in d.array_iter_with::<u64, Counting>(&mut ctx)? { x?; n += 1 } Ok(n) })();
+            let c = ctx; res(r, &d, |n| if n == c { json!({"k":"count","n":n}) } else { json!({"k":"count","n":n,"ctx":c}) })
+        }
+        "map_iter_with" => {
+            let mut ctx = 0u64;
+            let r: Result<u64, Error> = (|| { let mut n = 0u64; for x in d.map_iter_with::<u64, Counting, Counting>(&mut ctx)? { x?; n += 1 } Ok(n) })();
+            let c = ctx; res(r, &d, |n| if 2 * n == c { json!({"k":"count","n":n}) } else { json!({"k":"count","n":n,"ctx":c}) })
+        }
         "array" => { let r = d.array(); res(r, &d, vlen) }
         "map" => { let r = d.map(); res(r, &d, vlen) }
         "tag" => { let r = d.tag(); res(r, &d, |t| vtag(t.as_u64())) }
         "datatype" => { let r = d.datatype(); res(r, &d, |t| vtype(&type_name(t))) }
         "skip" => { let r = d.skip(); res(r, &d, |_| vunit()) }
-        "item" => { let r = full_item(&mut d, 0); res(r, &d, |_| vunit()) }
+        "item" => { let r = full_item(d, 0); res(r, &d, |_| vunit()) }
         _ => json!({"p":"unsupported"})
     }
 }
@@ -353,6 +385,7 @@ pub fn run_op(fam: &str, name: &str, input: &Value) -> Value {
 
         match fam {
             "acc" => acc(name, &get_bytes(&input["buf"]), input["pos"].as_u64().unwrap_or(0) as usize),
+            "probe" => probe(name, &get_bytes(&input["buf"]), input["pos"].as_u64().unwrap_or(0) as usize),
             "dec" => dec_intlike(name, &get_bytes(&input["buf"]), input["pos"].as_u64().unwrap_or(0) as usize),
             #[cfg(feature = "alloc")]
             "enc" => enc_calls(std::slice::from_ref(input)),
